@@ -510,6 +510,22 @@ fn pro_rata(fee: u128, rem: u128, total: u128) -> Result<Vec<u128>, Expect> {
     Ok(v)
 }
 
+
+/// The fee a bid holds *by definition*: its original fee scaled by the unspent fraction of its
+/// quote (C09). When the recorded amount is one of the acceptable roundings it is used (a tie may
+/// have been resolved either way); otherwise the half-up value is, so that a bid whose recorded
+/// fee was corrupted earlier (e.g. by a faulty format conversion) is still judged by what the
+/// statement says it is owed, not by what the record claims.
+fn held_fee_by_definition(bid: &BidM) -> Result<u128, Expect> {
+    let alts = pro_rata(bid.fee_total(), bid.unspent_quote(), bid.quote_amount)?;
+    let rec = bid.unspent_fee();
+    if alts.contains(&rec) {
+        Ok(rec)
+    } else {
+        Ok(alts[0])
+    }
+}
+
 pub fn class_json(c: &AskClass) -> String {
     match c {
         AskClass::Plain => "\"Basic\"".to_string(),
@@ -1027,13 +1043,17 @@ fn reverse_bid(cx: &Ctx, id: &str, size: Option<Option<u128>>, action: &'static 
     if q > bid.unspent_quote() {
         return dont("state_inconsistent");
     }
+    let held = if bid.fee.is_some() {
+        match held_fee_by_definition(bid) {
+            Ok(h) => h,
+            Err(e) => return e,
+        }
+    } else {
+        0
+    };
     let fee_alts: Vec<u128> = if bid.fee.is_some() {
         match pro_rata(bid.fee_total(), bid.unspent_quote() - q, bid.quote_amount) {
-            Ok(v) => v
-                .into_iter()
-                .filter(|r| *r <= bid.unspent_fee())
-                .map(|r| bid.unspent_fee() - r)
-                .collect(),
+            Ok(v) => v.into_iter().filter(|r| *r <= held).map(|r| held - r).collect(),
             Err(e) => return e,
         }
     } else {
@@ -1054,7 +1074,7 @@ fn reverse_bid(cx: &Ctx, id: &str, size: Option<Option<u128>>, action: &'static 
         let mut b2 = bid.clone();
         b2.acc_base += c;
         b2.acc_quote += q;
-        b2.acc_fee += r;
+        b2.acc_fee = bid.fee_total() - (held - r);
         let open = b2.unfilled() > 0;
         e.bids.push((id.to_string(), if open { Some(b2) } else { None }));
         e.attrs = vec![
@@ -1192,7 +1212,10 @@ fn execute_match(cx: &Ctx, ask_id: &str, bid_id: &str, price: &str, size: u128) 
     // bid fee alternatives: (bf, of) with of >= bf
     let mut fee_alts: Vec<(u128, u128)> = vec![];
     if bid.fee.is_some() {
-        let uf = bid.unspent_fee();
+        let uf = match held_fee_by_definition(bid) {
+            Ok(h) => h,
+            Err(e) => return e,
+        };
         let rg = match pro_rata(bid.fee_total(), bid.unspent_quote() - g, bid.quote_amount) {
             Ok(v) => v,
             Err(e) => return e,
@@ -1285,7 +1308,11 @@ fn execute_match(cx: &Ctx, ask_id: &str, bid_id: &str, price: &str, size: u128) 
         let mut b2 = bid.clone();
         b2.acc_base += size;
         b2.acc_quote += o;
-        b2.acc_fee += of;
+        if bid.fee.is_some() {
+            // fee held afterwards = fee held by definition before, minus what this fill consumed
+            let held_before = held_fee_by_definition(bid).unwrap_or(bid.unspent_fee());
+            b2.acc_fee = bid.fee_total() - (held_before - of);
+        }
         let ask_open = a2.size > 0;
         let bid_open = b2.unfilled() > 0;
         e.asks
